@@ -114,6 +114,14 @@ class Pool:
         n = int(v) if isinstance(v, int) else 0
         return f"(Some (mkv {cls_code(v, self.cl)}%nat {coq_z(n)} {s} {self.canon[i]}))"
 
+    def coq_obj(self, v, i):
+        """the Coq value of an object v that carries the payload of pool value i (e.g. the constructor's cast of it)"""
+        if v is None:
+            return "None"
+        st = "[" + "; ".join(str(ord(c)) for c in v) + "]" if isinstance(v, str) else "[]"
+        n = int(v) if isinstance(v, int) else 0
+        return f"(Some (mkv {cls_code(v, self.cl)}%nat {coq_z(n)} {st} {self.canon[i]}))"
+
     def coq_val_plain(self, i):
         return self.coq_val(i)[len("(Some "):-1]
 
@@ -437,6 +445,99 @@ def frag_holders(chk, can_eval, P):
                                               "term": terms[bad[0]][:500]})
 
 
+def item_run(P, case, bounds):
+    """case = (is_range, list type code, item type code, a index | None, b index | None, [target type codes]):
+    a Property (value a) / Range (min a, max b) of the item type is put into a SubmodelElementList of Properties / Ranges
+    announcing value_type_list_element, then its value_type is assigned"""
+    from basyx.aas import model
+    from c02 import enc_exc
+    is_range, vtle, t0, a, b, ts = case
+    cand = [i for i in (a, b) if i is not None]
+    lst = model.SubmodelElementList("l", model.Range if is_range else model.Property, value_type_list_element=P.cl[vtle])
+    try:
+        if is_range:
+            o = model.Range(None, P.cl[t0], min=None if a is None else P.vals[a], max=None if b is None else P.vals[b])
+        else:
+            o = model.Property(None, P.cl[t0], value=None if a is None else P.vals[a])
+        lst.value.add(o)
+    except Exception:  # noqa
+        return None, None        # not a case: the item cannot be built / put into the list
+
+    def enc():
+        if is_range:
+            return [P.cl.index(o.value_type)] + P.enc(o.min, P.tok_of(o.min, cand)) + P.enc(o.max, P.tok_of(o.max, cand))
+        return [P.cl.index(o.value_type)] + P.enc(o.value, P.tok_of(o.value, cand)) + [-1]
+    fail = None
+    trace = []
+    item_run.initial = ((o.min, o.max) if is_range else (o.value, None))      # the fields as the constructor left them
+    for k, t in enumerate(ts):
+        before = (o.value_type, o.min, o.max) if is_range else (o.value_type, o.value)
+        try:
+            o.value_type = P.cl[t]
+            code = 0
+        except Exception as e:  # noqa
+            code = enc_exc(e)
+            after = (o.value_type, o.min, o.max) if is_range else (o.value_type, o.value)
+            if not fail and any(x is not y for x, y in zip(before, after)):
+                fail = (k, "rejected value_type assignment changed the item")
+            if not fail and code not in (1, 2, 1109):
+                fail = (k, f"value_type assignment raised {type(e).__name__}")
+        if not fail and o.value_type is not lst.value_type_list_element:
+            fail = (k, f"AASd-109: the list announces {lst.value_type_list_element.__name__}, its item now has value_type "
+                       f"{o.value_type.__name__}")
+        if not fail and o.parent is not lst:
+            fail = (k, "the item left its list")
+        vals = (o.min, o.max) if is_range else (o.value,)
+        if not fail and any(not consistent(v, o.value_type, bounds) for v in vals):
+            fail = (k, "value is no value of the item's value_type")
+        trace.append([code] + enc())
+    return trace, fail
+
+
+def frag_items(chk, can_eval, P):
+    """AASd-109 under assignment to value_type of a contained Property / Range"""
+    from basyx.aas.model import datatypes as dt
+    from c02 import XSD_BOUNDS
+    bounds = {getattr(dt, n): b for n, b in XSD_BOUNDS.items() if n != "Integer"}
+    rng = chk.rng
+    cases = []
+    small = P.vals.index(5)
+    for is_range in (False, True):
+        for vtle in range(N_XSD):
+            # every target type once, the list's own type in between (accepted: nothing to re-cast or re-cast to itself)
+            order = list(range(N_XSD))
+            rng.shuffle(order)
+            order.insert(rng.randrange(len(order)), vtle)
+            for a in (None, small if issubclass(P.cl[vtle], int) and P.cl[vtle] is not bool else None):
+                cases.append((is_range, vtle, vtle, a, a if is_range else None, order))
+    terms, kept = [], []
+    for case in cases:
+        tr, fail = item_run(P, case, bounds)
+        if tr is None:
+            continue
+        kept.append(case)
+        chk.seen(("item",) + case[:5] + (tuple(case[5]),), nontrivial=True)
+        chk.count("typed:list-item:" + ("Range" if case[0] else "Property"))
+        if fail:
+            k, msg = fail
+            chk.fail(f"C02:list-item:value_type:{msg.split(':')[0][:40]}",
+                     f"{'Range' if case[0] else 'Property'} item of a SubmodelElementList(value_type_list_element={NAMES[case[1]]}): "
+                     f"value_type = {NAMES[case[5][k]]}: {msg}",
+                     {"kind": "tvitem", "case": [case[0], case[1], case[2], case[3], case[4], case[5][:k + 1]]})
+        terms.append(f"({'true' if case[0] else 'false'}, {case[1]}%nat, {case[2]}%nat, {P.coq_obj(item_run.initial[0], case[3])}, "
+                     f"{P.coq_obj(item_run.initial[1], case[4])}, "
+                     + common_list([f"{t}%nat" for t in case[5]], "nat") + f", {coq_z(common.zhash_d(tr, 2))})")
+    chk.cov["typed_list_items"] = f"{len(kept)} re-typing histories of list items (every list type x every target type)"
+    if can_eval and terms:
+        bad, errs = common.run_mismatch_shards("C02tvi", PRELUDE, terms, "check_item_case", shard=200)
+        chk.traces += common.run_mismatch_shards.evaluated - len(bad)
+        for e in errs:
+            chk.tie_broken("correspondence-run", e)
+        if bad:
+            chk.tie_broken("correspondence", {"fragment": "typed values: list items", "n_disagreements": len(bad),
+                                              "first_case": repr(kept[bad[0]]), "term": terms[bad[0]][:400]})
+
+
 def common_list(items, ty):
     return f"(@nil {ty})" if not items else "[" + "; ".join(items) + "]"
 
@@ -446,6 +547,7 @@ def run_all(chk, can_eval):
     frag_subclass_table(chk, can_eval)
     frag_trivial_cast(chk, can_eval, P)
     frag_holders(chk, can_eval, P)
+    frag_items(chk, can_eval, P)
 
 
 def replay_case(rp):
@@ -454,6 +556,11 @@ def replay_case(rp):
     bounds = {getattr(dt, n): b for n, b in XSD_BOUNDS.items() if n != "Integer"}
     P = Pool()
     c = rp["case"]
+    if rp["kind"] == "tvitem":
+        tr, fail = item_run(P, (c[0], c[1], c[2], c[3], c[4], list(c[5])), bounds)
+        print("trace:", tr)
+        print("oracle:", fail)
+        return 1 if fail else 0
     ops = [tuple(o) for o in c[3]]
     if rp["kind"] == "tvholder":
         tr, fail = holder_run(P, (c[0], c[1], c[2], ops), bounds)
